@@ -73,8 +73,11 @@ def gen_history(rng, maxlen=8):
     return h
 
 
-def render_tests(tests):
+def render_tests(tests, late_import=False):
     out = ["from inline_snapshot import snapshot, outsource, external", ""]
+    if late_import:
+        # the file's own import of `external` stands behind ordinary statements
+        out = ["import sys", "", "sys.path.append('.')", "from inline_snapshot import snapshot, outsource", "X = 1", "from inline_snapshot import external", ""]
     for t in tests:
         out.append(f"def test_{t['uid']}():")
         out.append(f"    assert {data_expr(t['d'], t['suf'])} == snapshot({t['arg']})")
@@ -98,6 +101,11 @@ def run_history(item):
         store_dir = (d / conf["storage_dir"] if conf.get("storage_dir") else d / ".inline-snapshot") / "external"
         tests, uid = [], 0
         obs, problems = [], []
+        # conf "subdir": the test file lives in tests/, sessions are started alternately from the project root and from tests/
+        tdir = d / "tests" if conf.get("subdir") else d
+        tdir.mkdir(exist_ok=True)
+        tfile = tdir / "test_s.py"
+        nsession = 0
         known = {}   # (sha, suffix) -> (d, suf)   (bytes payloads with suffix .bin and .png have the same hash)
         for step in h:
             if step[0] == "add":
@@ -110,18 +118,20 @@ def run_history(item):
             else:
                 for t in tests:
                     known[(sha(t["d"], t["suf"]), SUFFIXES[t["suf"]])] = (t["d"], t["suf"])
-                (d / "test_s.py").write_text(render_tests(tests))
+                tfile.write_text(render_tests(tests, conf.get("late_import")))
                 flags = [c for c in ("create", "fix", "trim") if step[1][c]]
+                cwd = tdir if (conf.get("subdir") and nsession % 2 == 1) else d
+                nsession += 1
                 if step[1].get("review"):
-                    r = driver.run_pytest(d, ["--inline-snapshot=review"], stdin=(step[1]["review"] + "\n").encode() * 8)
+                    r = driver.run_pytest(cwd, ["--inline-snapshot=review"], stdin=(step[1]["review"] + "\n").encode() * 8)
                 else:
-                    r = driver.run_pytest(d, [f"--inline-snapshot={','.join(flags)}"] if flags else [])
+                    r = driver.run_pytest(cwd, [f"--inline-snapshot={','.join(flags)}"] if flags else [])
                 if r.get("infra_error"):
                     return {"infra": True}
                 if r["rc"] not in (0, 1):
                     problems.append(f"pytest exit status {r['rc']}: {(r['stdout'] + r['stderr'])[-600:]}")
                 # read back the references from the file
-                txt = (d / "test_s.py").read_text()
+                txt = tfile.read_text()
                 tree = ast.parse(txt)
                 funcs = {n.name: n for n in tree.body if isinstance(n, ast.FunctionDef)}
                 refs = []
@@ -163,7 +173,7 @@ def run_history(item):
                             problems.append(f"{p.name}: bytes differ from what was outsourced")
                         files.append((k[0], bool(m.group(2)), k[1]))
                 obs.append((files, refs))
-        return {"obs": obs, "problems": problems, "final": (d / "test_s.py").read_text() if (d / "test_s.py").exists() else ""}
+        return {"obs": obs, "problems": problems, "final": tfile.read_text() if tfile.exists() else ""}
     finally:
         shutil.rmtree(d, ignore_errors=True)
 
@@ -255,7 +265,7 @@ def lookup_api_cases(ctx: Ctx):
 def run(ctx: Ctx):
     ctx.coverage["rule"] = (
         "histories of 3-8 steps over {add a test with an empty snapshot, edit the data a test outsources (new data or data shared with another test), remove a test, "
-        "run a real pytest session with a subset of create/fix/trim}; str/bytes/custom-suffix data; hash-length 8/12/64 and storage-dir settings; after every session the "
+        "run a real pytest session with a subset of create/fix/trim}; str/bytes/custom-suffix data; hash-length 8/12/64 and (relative) storage-dir settings, sessions started alternately from the project root and from tests/, the file's own `external` import behind ordinary statements; after every session the "
         "directory listing (content hashes checked with hashlib against the file names and against the outsourced bytes) and the references in the test file vs "
         "Model/Storage.v in Coq, and against the statement (persisted only with a reference, removed only by approved trim and unreferenced); "
         "prefix lookup on a real DiscStorage (missing / ambiguous / unique). non-trivial = history with >= 2 sessions")
@@ -263,7 +273,8 @@ def run(ctx: Ctx):
     n = 28 if not ctx.thorough else 400
     items = []
     for i in range(n):
-        conf = [{}, {"hash_length": 8}, {"hash_length": 64}, {"storage_dir": "snaps/store"}][i % 4]
+        conf = [{}, {"hash_length": 8}, {"hash_length": 64}, {"storage_dir": "snaps/store"}, {"late_import": True}, {"storage_dir": "snaps/store", "subdir": True},
+                {"late_import": True, "hash_length": 8}, {"subdir": True}][i % 8]
         items.append((gen_history(ctx.rng), conf))
     outs = tmap(run_history, items)
     terms, idx = [], []
